@@ -15,7 +15,8 @@ import KavaVerif.Model.Emissions
   c19.kdhist     prev periods blocks               => -                 (blocks = now:active:idx=secs,…;…)
   c19.mintamt    supply rate secs                  => amount
   c19.relpow     x n1 n2                           => z1 z2
-  c19.fullblock  now inflow mintProv | community params | inflation params | staking state | kavadist state
+  c19.stakehist  ref0 e0 blocks(time:rate:paid;…)  => -
+  c19.fullblock  now inflow mintProv prevBlock | community params | inflation params | staking state | kavadist state
                                                    => class and the same observation afterwards
 -/
 namespace Drv.C19
@@ -285,7 +286,7 @@ def fullObs? : List String → Option FullObs
     | _, _, _, _, _, _, _, _, _, _, _, _, _, _ => none
   | _ => none
 
-def fullPred (now inflow : Int) (ps infra : List Period) (pre post : FullObs) : String :=
+def fullPred (now inflow : Int) (refT : Option Int) (ps infra : List Period) (pre post : FullObs) : String :=
   -- the switch-over: fires exactly when the trigger is set and not after `now`
   let shouldFire := match pre.upgrade with
     | some u => decide (u ≤ now)
@@ -314,6 +315,16 @@ def fullPred (now inflow : Int) (ps infra : List Period) (pre post : FullObs) : 
     predfail "C19_staking_payout" s!"not-conserved paid={paid} feeDelta={post.fee - pre.fee} mint={mintProv}"
   else if post.err < 0 || post.err ≥ P then predfail "C19_staking_partition" "error-out-of-range"
   else
+  -- (a) nothing is paid for time before the previous block.  `refT` is the harness's own log: the time of
+  -- the previous block of this history (for the first block: the accumulation time the history was
+  -- configured with; `none` = not initialised, the block must pay nothing).  Independent of the
+  -- implementation's LastAccumulationTime.
+  let earlierOk := match refT with
+    | some t => decide (now < t) || decide (NSi * (paid * P) ≤ post.rate * (now - t) + NSi * P)
+    | none => decide (paid == 0)
+  if !earlierOk then
+    predfail "C19_staking_partition" s!"paid-for-earlier-time paid={paid} rate={post.rate} prevBlock={showOpt refT} now={now}"
+  else
   let rateOk := match pre.last with
     | some l => decide (NSi * (paid * P + post.err - pre.err) ≤ post.rate * (now - l)) || decide (now < l)
     | none => decide (paid == 0)
@@ -333,14 +344,14 @@ def fullPred (now inflow : Int) (ps infra : List Period) (pre post : FullObs) : 
     else "ok"
 
 def handleFull : Handler
-  | now :: inflow :: mintProvDry :: rest =>
+  | now :: inflow :: mintProvDry :: refT :: rest =>
     -- rest = 12 pre fields (community+infl+staking), kdPrev, periods, infra, supply, kdBal, "=>", cls, 14 post fields
     match rest with
     | [u, r, ur, mn, mx, ka, tx, l, e, p, f, kp, periods, infra, s, kb, _, cls,
        u', r', ur', mn', mx', ka', tx', l', e', p', f', kp', s', kb'] =>
-      match int? now, int? inflow, int? mintProvDry, fullObs? [u, r, ur, mn, mx, ka, tx, l, e, p, f, kp, s, kb],
+      match int? now, int? inflow, int? mintProvDry, optInt? refT, fullObs? [u, r, ur, mn, mx, ka, tx, l, e, p, f, kp, s, kb],
             periods? periods, periods? infra with
-      | some now, some inflow, some mintProvDry, some pre, some ps, some infra =>
+      | some now, some inflow, some mintProvDry, some refT, some pre, some ps, some infra =>
         let c : Chain :=
           { comm := { params := ⟨pre.upgrade, ⟨pre.rate⟩, ⟨pre.upgradeRate⟩⟩,
                       infl := ⟨⟨pre.mintMin⟩, ⟨pre.mintMax⟩, pre.kdActive, ⟨pre.tax⟩⟩,
@@ -378,11 +389,45 @@ def handleFull : Handler
               expectEq "kdPrev" (showOpt c'.kd.prev) (showOpt post.kdPrev),
               expectEq "kdMinted" (toString c'.kdMinted) (toString kdMinted),
               expectEq "supply" (toString c'.supply) (toString post.supply)]
-            let pred := fullPred now inflow ps infra pre post
+            let pred := fullPred now inflow refT ps infra pre post
             if pred != "ok" then pred else cmp
         | _ => mismatch "result" res.cls cls
-      | _, _, _, _, _, _ => badInput "parse"
+      | _, _, _, _, _, _, _ => badInput "parse"
     | _ => badInput "arity"
+  | _ => badInput "arity"
+
+/-! ### c19.stakehist — (b) a whole keeper-level history with rate changes -/
+
+/-- `time:rate:paid` -/
+def triple? (s : String) : Option (Int × Int × Int) :=
+  match s.splitOn ":" with
+  | [a, b, c] =>
+    match int? a, int? b, int? c with
+    | some a, some b, some c => some (a, b, c)
+    | _, _, _ => none
+  | _ => none
+
+/-- fields: ref0 e0 blocks "=>" "-".  `blocks` is the harness's own log of (block time, rate in force in
+    that block, amount that left the community pool for the fee collector in that block).
+    Predicate (C19_staking_rate_changes on the real observation):
+    total paid ≤ Σ_b rate_b·(t_b − t_{b−1}) + carried-in error (< 1 unit). -/
+def handleStakeHist : Handler
+  | [ref0, e0, blocks, _, _] =>
+    match optInt? ref0, int? e0, (strs blocks ";").mapM triple? with
+    | some ref0, some e0, some bs =>
+      let step := fun (st : Option Int × Int × Int × Bool) (b : Int × Int × Int) =>
+        -- (previous time, Σ rate·Δt, Σ paid, times sorted)
+        match st.1 with
+        | none => (some b.1, st.2.1, st.2.2.1 + b.2.2, st.2.2.2)
+        | some t => (some b.1, st.2.1 + b.2.1 * (b.1 - t), st.2.2.1 + b.2.2, st.2.2.2 && decide (t ≤ b.1))
+      let fin := bs.foldl step (ref0, 0, 0, true)
+      let bound := fin.2.1
+      let total := fin.2.2.1
+      if !fin.2.2.2 || e0 < 0 || e0 ≥ P || bs.any (fun b => decide (b.2.1 < 0)) then "ok"
+      else if NSi * (total * P) > bound + NSi * e0 then
+        predfail "C19_staking_partition" s!"paid-for-earlier-time history total={total} bound={bound / (NSi * P)} blocks={bs.length}"
+      else "ok"
+    | _, _, _ => badInput "parse"
   | _ => badInput "arity"
 
 def handlers : List (String × Handler) := [
@@ -392,6 +437,7 @@ def handlers : List (String × Handler) := [
   ("c19.kdhist", handleKdHist),
   ("c19.mintamt", handleMintAmt),
   ("c19.relpow", handleRelPow),
-  ("c19.fullblock", handleFull)
+  ("c19.fullblock", handleFull),
+  ("c19.stakehist", handleStakeHist)
 ]
 end Drv.C19
